@@ -9,6 +9,7 @@ K  the real BeamCXLine.emission / BeamEmissionLine.emission / Plasma.z_effective
 S  the property's formulas recomputed in plain Python from the scene description (no model): radiance,
    argument tuples, provider queries, convexity (min q <= q_c <= max q), Z_eff range, zero-density behaviour.
 """
+import copy
 import json
 import math
 
@@ -46,6 +47,18 @@ def p3_value(p, e, n, t):
         return 0.0
     a = p['a']
     return a[0] + a[1] * e + a[2] * n + a[3] * t
+
+
+# the mock atomic data depends on the donor (beam) species, so that data cached for a previous beam element shows
+DONOR_FACTOR = {'hydrogen': 1.0, 'deuterium': 1.25, 'tritium': 1.5}
+
+
+def donor_c(c, donor):
+    return [x * DONOR_FACTOR[donor] for x in c]
+
+
+def donor_p3(p, donor):
+    return dict(null=p['null'], a=[x * DONOR_FACTOR[donor] for x in p['a']])
 
 
 def sample_species(case):
@@ -163,6 +176,125 @@ def gen_case(rng, kind, edge=None):
     return case
 
 
+ZEROS_CX = ['q-excited-one', 'q-excited-one', 'q-ground', 'q-all-but-one', 'q-all', 'k-one-metastable', 'k-one-species',
+            'k-all-but-one-species', 'n-one', 'n-all-but-receiver', 'T-one', 'T-all-but-receiver', 'B-zero', 'v-zero-receiver']
+ZEROS_BES = ['q-one', 'q-all-but-one', 'q-all', 'n-one', 'n-all-but-one', 'T-one', 'T-all-but-one', 'T-all']
+
+
+def apply_zeros(rng, case, tag):
+    """make one ingredient *exactly* zero while the others stay non-zero (a coefficient value, a relative population,
+    a density, a temperature), including the 'all but one' variants"""
+    sp = case['species']
+    ions = [i for i, s in enumerate(sp) if s['charge'] >= 1]
+    Z6, Z4 = [0.0] * 6, [0.0] * 4
+
+    def positive(p, scale):
+        if not p['null']:
+            p['a'] = [scale * rng.uniform(0.2, 1.0), scale * rng.random() / 1e5, scale * rng.random() / 1e19, scale * rng.random() / 1e3]
+
+    if case['kind'] == 'cx':
+        r = case['receiver']
+        metas = case['metas']
+        if tag.startswith(('q-excited', 'q-all-but', 'k-')) and len(metas) < 2:
+            # these need an excited metastable
+            m = 2
+            s_ = 1e-33
+            metas.append(dict(m=m, c=[s_ * rng.uniform(0.2, 1), s_ * rng.random() / 1e5, s_ * rng.random() / 1e3,
+                                      s_ * rng.random() / 1e19, s_ * rng.random() / 3, s_ * rng.random() / 3]))
+            rng.shuffle(metas)
+            case['pops'][str(m)] = [rnd_p3(rng, null=(s['charge'] == 0), scale=0.3) for s in sp]
+        excited = [mt for mt in metas if mt['m'] != 1]
+        # everything that is not zeroed is strictly positive, so that the zero is the only one
+        for mt in metas:
+            if mt['c'][0] == 0.0:
+                mt['c'][0] = 1e-33 * rng.uniform(0.2, 1.0)
+        for m in case['pops']:
+            for i in ions:
+                positive(case['pops'][m][i], rng.choice([0.3, 2.0]))
+        for i in ions:
+            if sp[i]['n'][0] == 0.0:
+                sp[i]['n'][0] = 10 ** rng.uniform(15, 20)
+        if tag == 'q-excited-one':
+            rng.choice(excited)['c'] = list(Z6)
+        elif tag == 'q-ground':
+            [mt for mt in metas if mt['m'] == 1][0]['c'] = list(Z6)
+        elif tag == 'q-all-but-one':
+            keep = rng.choice(metas)
+            for mt in metas:
+                if mt is not keep:
+                    mt['c'] = list(Z6)
+        elif tag == 'q-all':
+            for mt in metas:
+                mt['c'] = list(Z6)
+        elif tag == 'k-one-metastable':
+            m = str(rng.choice(excited)['m'])
+            for p_ in case['pops'][m]:
+                p_['a'] = list(Z4)
+        elif tag == 'k-one-species':
+            i = rng.choice(ions)
+            for m in case['pops']:
+                case['pops'][m][i]['a'] = list(Z4)
+        elif tag == 'k-all-but-one-species':
+            i = rng.choice(ions)
+            for m in case['pops']:
+                for j, p_ in enumerate(case['pops'][m]):
+                    if j != i:
+                        p_['a'] = list(Z4)
+        elif tag == 'n-one':
+            others = [i for i in range(len(sp)) if i != r]
+            if others:
+                sp[rng.choice(others)]['n'][0] = 0.0
+        elif tag == 'n-all-but-receiver':
+            for i in range(len(sp)):
+                if i != r:
+                    sp[i]['n'][0] = 0.0
+        elif tag == 'T-one':
+            others = [i for i in range(len(sp)) if i != r]
+            if others:
+                sp[rng.choice(others)]['T'][0] = 0.0
+        elif tag == 'T-all-but-receiver':
+            for i in range(len(sp)):
+                if i != r:
+                    sp[i]['T'][0] = 0.0
+        elif tag == 'B-zero':
+            case['B'] = [[0.0, 0.0, 0.0, 0.0]] * 3
+        elif tag == 'v-zero-receiver':
+            sp[r]['v'] = [[0.0, 0.0, 0.0, 0.0]] * 3
+    else:
+        for i in ions:
+            positive(case['bes'][i], 1e-33)
+            if sp[i]['n'][0] == 0.0:
+                sp[i]['n'][0] = 10 ** rng.uniform(15, 20)
+        one = rng.choice(ions)
+        if tag == 'q-one':
+            case['bes'][one]['a'] = list(Z4)
+        elif tag == 'q-all-but-one':
+            for i in range(len(sp)):
+                if i != one:
+                    case['bes'][i]['a'] = list(Z4)
+        elif tag == 'q-all':
+            for p_ in case['bes']:
+                p_['a'] = list(Z4)
+        elif tag == 'n-one':
+            sp[one]['n'][0] = 0.0
+        elif tag == 'n-all-but-one':
+            for i in range(len(sp)):
+                if i != one:
+                    sp[i]['n'][0] = 0.0
+        elif tag == 'T-one':
+            sp[one]['T'][0] = 0.0
+        elif tag == 'T-all-but-one':
+            for i in range(len(sp)):
+                if i != one:
+                    sp[i]['T'][0] = 0.0
+        elif tag == 'T-all':
+            for s_ in sp:
+                s_['T'][0] = 0.0
+    case['edge'] = 'zero:' + tag
+    return case
+
+
+
 # --------------------------------------------------------------------------------------------------------------------
 # the implementation under the harness
 # --------------------------------------------------------------------------------------------------------------------
@@ -197,6 +329,7 @@ def _classes():
             super().__init__()
             self.nb = nb
             self.calls = []
+            self.clamp_sigma = 5.0      # read by Beam._generate_geometry when models are attached
 
         def density(self, x, y, z):
             self.calls.append((x, y, z))
@@ -240,13 +373,21 @@ def _classes():
             self.bes = {}
             self.unknown = 0
 
+        def reset(self):
+            """forget what was recorded so far (a later evaluation is observed on its own)"""
+            for r in list(self.cx) + list(self.pop.values()) + list(self.bes.values()):
+                r.calls.clear()
+            self.queries.clear()
+            self.unknown = 0
+            self.cx, self.pop, self.bes = [], {}, {}
+
         def wavelength(self, ion, charge, transition):
             self.queries.append(('wavelength', ion.name, charge, tuple(transition)))
             return 656.1
 
         def beam_cx_pec(self, donor, receiver, receiver_charge, transition):
             self.queries.append(('beam_cx_pec', donor.name, receiver.name, receiver_charge, tuple(transition)))
-            self.cx = [CX(mt['m'], mt['c']) for mt in self.case['metas']]
+            self.cx = [CX(mt['m'], donor_c(mt['c'], donor.name)) for mt in self.case['metas']]
             return list(self.cx)
 
         def _find(self, element, charge):
@@ -263,7 +404,7 @@ def _classes():
             except (KeyError, TypeError, IndexError):
                 self.unknown += 1
                 p = dict(null=False, a=[7.0, 0.0, 0.0, 0.0])
-            r = Pop(p)
+            r = Pop(donor_p3(p, beam_ion.name))
             self.pop[(metastable, i)] = r
             return r
 
@@ -275,7 +416,7 @@ def _classes():
                 p = dict(null=False, a=[7e-33, 0.0, 0.0, 0.0])
             else:
                 p = self.case['bes'][i]
-            r = BES(p)
+            r = BES(donor_p3(p, beam_ion.name))
             self.bes[i] = r
             return r
 
@@ -321,53 +462,240 @@ def build(case):
     return ad, plasma, beam, att
 
 
-def run_impl(case):
-    """returns the observation dict of one emission() call on a fresh scene"""
-    from raysect.core import Point3D, Vector3D
-    from raysect.optical import Spectrum
-    from cherab.core.atomic import Line, elements
-    from cherab.core.model import BeamCXLine, BeamEmissionLine
+def _mk_species(s):
+    from cherab.core import Species
+    from cherab.core.atomic import elements
     k = _classes()
-    ad, plasma, beam, att = build(case)
-    order = [(s.element.name, s.charge) for s in plasma.composition]
-    obs = dict(order=order)
-    bp, pp = Point3D(*case['beam_point']), Point3D(*case['plasma_point'])
-    bdir, odir = Vector3D(*case['direction']), Vector3D(0.3, -0.4, 0.5)
-    if case['kind'] == 'cx':
-        if case.get('receiver_override'):
-            rs = dict(element=case['receiver_override'][0], charge=case['receiver_override'][1])
+    return Species(getattr(elements, s['element']), s['charge'], k['Dist'](s['n'], s['T'], s['v']))
+
+
+class Scene:
+    """a live scene: real Plasma, Beam and emission model; `observe` evaluates the model once, `apply` changes the
+    scene through public API and returns the description of the new current state"""
+
+    def __init__(self, case, attached=False):
+        from cherab.core.atomic import Line, elements
+        from cherab.core.model import BeamCXLine, BeamEmissionLine
+        k = _classes()
+        self.kind = case['kind']
+        self.attached = attached
+        self.ad, self.plasma, self.beam, self.att = build(case)
+        if self.kind == 'cx':
+            if case.get('receiver_override'):
+                rs = dict(element=case['receiver_override'][0], charge=case['receiver_override'][1])
+            else:
+                rs = case['species'][case['receiver']]
+            self.line = Line(getattr(elements, rs['element']), rs['charge'] - 1, tuple(case['transition']))
+            if attached:
+                self.model = BeamCXLine(self.line, lineshape=k['Shape'])
+            else:
+                self.model = BeamCXLine(self.line, self.beam, self.plasma, self.ad, lineshape=k['Shape'])
         else:
-            rs = case['species'][case['receiver']]
-        line = Line(getattr(elements, rs['element']), rs['charge'] - 1, tuple(case['transition']))
-        model = BeamCXLine(line, beam, plasma, ad, lineshape=k['Shape'])
-        k['Shape'].log.clear()
-        spectrum = Spectrum(400, 800, 4)
-        st, res = call(model.emission, bp, pp, bdir, odir, spectrum)
-        obs['status'] = st
-        obs['msg'] = res if st != 'ok' else ''
-        log = list(k['Shape'].log)
-        obs['lines'] = [(l[0], l[1], l[2]) for l in log]
-        obs['shape_ok'] = all(l[3] is line and l[4] == 656.1 and (l[5].element.name, l[5].charge) == (rs['element'], rs['charge'])
-                              for l in log)
-        obs['cx_calls'] = [(c.donor_metastable, list(c.calls)) for c in ad.cx]
-        obs['pop_calls'] = {'%d/%d' % key: list(v.calls) for key, v in ad.pop.items()}
-        obs['returned_same_spectrum'] = (st == 'ok' and res is spectrum)
-        obs['spectrum_untouched'] = not any(spectrum.samples)
+            self.line = Line(getattr(elements, case['beam_element']), 0, (3, 2))
+            if attached:
+                self.model = BeamEmissionLine(self.line)
+            else:
+                self.model = BeamEmissionLine(self.line, self.beam, self.plasma, self.ad)
+        if attached:
+            self.beam.models = [self.model]      # the documented way: the beam hands plasma / beam / atomic data to the model
+
+    def observe(self, case):
+        """one emission() call for the current state described by `case`"""
+        from raysect.core import Point3D, Vector3D
+        from raysect.optical import Spectrum
+        k = _classes()
+        ad, plasma, att, model = self.ad, self.plasma, self.att, self.model
+        ad.case = case
+        ad.reset()
+        att.calls.clear()
+        order = [(s.element.name, s.charge) for s in plasma.composition]
+        obs = dict(order=order)
+        bp, pp = Point3D(*case['beam_point']), Point3D(*case['plasma_point'])
+        bdir, odir = Vector3D(*case['direction']), Vector3D(0.3, -0.4, 0.5)
+        if self.kind == 'cx':
+            if case.get('receiver_override'):
+                rs = dict(element=case['receiver_override'][0], charge=case['receiver_override'][1])
+            else:
+                rs = case['species'][case['receiver']]
+            k['Shape'].log.clear()
+            spectrum = Spectrum(400, 800, 4)
+            st, res = call(model.emission, bp, pp, bdir, odir, spectrum)
+            obs['status'] = st
+            obs['msg'] = res if st != 'ok' else ''
+            log = list(k['Shape'].log)
+            obs['lines'] = [(l[0], l[1], l[2]) for l in log]
+            obs['shape_ok'] = all(l[3] is self.line and l[4] == 656.1 and (l[5].element.name, l[5].charge) == (rs['element'], rs['charge'])
+                                  for l in log)
+            obs['cx_calls'] = [(c.donor_metastable, list(c.calls)) for c in ad.cx]
+            obs['pop_calls'] = {'%d/%d' % key: list(v.calls) for key, v in ad.pop.items() if key[1] is not None}
+            obs['returned_same_spectrum'] = (st == 'ok' and res is spectrum)
+            obs['spectrum_untouched'] = not any(spectrum.samples)
+        else:
+            spectrum = Spectrum(400, 900, 1)
+            st, res = call(model.emission, bp, pp, bdir, odir, spectrum)
+            obs['status'] = st
+            obs['msg'] = res if st != 'ok' else ''
+            obs['total'] = float(spectrum.samples[0] * spectrum.delta_wavelength)
+            obs['bes_calls'] = {str(i): list(v.calls) for i, v in ad.bes.items() if i is not None}
+        obs['queries'] = list(ad.queries)
+        obs['unknown_queries'] = ad.unknown
+        obs['att_calls'] = list(att.calls)
+        obs['zeff'] = call(plasma.z_effective, *case['plasma_point'])
+        obs['ion_density'] = call(plasma.ion_density, *case['plasma_point'])
+        return obs
+
+    # ---- changes through public API ------------------------------------------------------------------------------
+    def changes(self, case):
+        out = ['composition.add:replace-species', 'composition.add:new-species', 'composition.set', 'plasma.composition=',
+               'plasma.electron_distribution', 'plasma.b_field', 'beam.energy', 'beam.element', 'beam.attenuator',
+               'plasma.atomic_data', 'plasma-swap']
+        if self.kind == 'cx':
+            out += ['composition.add:replace-receiver', 'composition.add:replace-receiver']
+            if sum(1 for s in case['species'] if s['charge'] >= 1 and s['n'][0] > 0) > 1:
+                out.append('model.line')
+        out += ['beam.atomic_data', 'beam.atomic_data'] if self.attached else ['model.atomic_data', 'model.atomic_data']
+        return out
+
+    def apply(self, rng, case, change):
+        """perform `change` on the live objects; returns the description of the new current state"""
+        from raysect.core import Vector3D
+        from cherab.core import Plasma
+        from cherab.core.atomic import Line, elements
+        k = _classes()
+        sp = case['species']
+        ent = [(s, i) for i, s in enumerate(sp)]
+        new = None
+        if change in ('composition.add:replace-receiver', 'composition.add:replace-species'):
+            i = case['receiver'] if change.endswith('receiver') else rng.randrange(len(sp))
+            ns = redraw_species(rng, sp[i])
+            ent[i] = (ns, i)
+            new = set_species(case, rng, ent)
+            self.plasma.composition.add(_mk_species(ns))
+        elif change == 'composition.add:new-species':
+            have = {(s['element'], s['charge']) for s in sp}
+            el, z = rng.choice([q for q in POOL if q not in have])
+            ns = redraw_species(rng, dict(element=el, charge=z))
+            ent.append((ns, None))
+            new = set_species(case, rng, ent)
+            self.plasma.composition.add(_mk_species(ns))
+        elif change in ('composition.set', 'plasma.composition=', 'plasma-swap'):
+            keep = list(range(len(sp)))
+            if len(keep) > 1 and rng.random() < 0.5:
+                drop = rng.choice([i for i in keep if self.kind != 'cx' or i != case['receiver']])
+                keep.remove(drop)
+            rng.shuffle(keep)
+            ent = [(redraw_species(rng, sp[i]), i) for i in keep]
+            new = set_species(case, rng, ent)
+            objs = [_mk_species(s) for s, _ in ent]
+            if change == 'composition.set':
+                self.plasma.composition.set(objs)
+            elif change == 'plasma.composition=':
+                self.plasma.composition = objs
+            else:
+                new['B'] = [rnd_affine(rng, rng.uniform(-5, 5)) for _ in range(3)]
+                B = new['B']
+                pl = Plasma()
+                pl.b_field = lambda x, y, z: Vector3D(*[affine(c, (x, y, z)) for c in B])
+                pl.electron_distribution = k['Dist']([2e19, 0, 0, 0], [50.0, 0, 0, 0], [[0.0] * 4] * 3)
+                pl.composition = objs
+                pl.atomic_data = self.ad
+                self.plasma = pl
+                if self.attached:
+                    self.beam.plasma = pl
+                else:
+                    self.model.plasma = pl
+        else:
+            new = copy.deepcopy(case)
+            if change == 'plasma.electron_distribution':
+                new['electron'] = dict(n=10 ** rng.uniform(18, 20), T=10 ** rng.uniform(1, 3))
+                self.plasma.electron_distribution = k['Dist']([new['electron']['n'], 0, 0, 0], [new['electron']['T'], 0, 0, 0], [[0.0] * 4] * 3)
+            elif change == 'plasma.b_field':
+                new['B'] = [rnd_affine(rng, rng.uniform(-5, 5)) for _ in range(3)]
+                B = new['B']
+                self.plasma.b_field = lambda x, y, z: Vector3D(*[affine(c, (x, y, z)) for c in B])
+            elif change == 'beam.energy':
+                new['energy'] = 10 ** rng.uniform(3, 5.3)
+                self.beam.energy = new['energy']
+            elif change == 'beam.element':
+                new['beam_element'] = rng.choice([e for e in ('hydrogen', 'deuterium', 'tritium') if e != case['beam_element']])
+                self.beam.element = getattr(elements, new['beam_element'])
+                if self.kind == 'bes':      # the Balmer-alpha line must belong to the beam species
+                    self.line = Line(getattr(elements, new['beam_element']), 0, (3, 2))
+                    self.model.line = self.line
+            elif change == 'beam.attenuator':
+                new['nb'] = rnd_affine(rng, 10 ** rng.uniform(13, 16), 0.15)
+                self.att = k['Att'](new['nb'])
+                self.beam.attenuator = self.att
+            elif change in ('model.atomic_data', 'beam.atomic_data'):
+                redraw_coefficients(rng, new)
+                self.ad = k['Provider'](new)
+                if change == 'model.atomic_data':
+                    self.model.atomic_data = self.ad
+                else:
+                    self.beam.atomic_data = self.ad
+            elif change == 'plasma.atomic_data':
+                # beam models take their data from the beam, not from the plasma: nothing may change
+                self.plasma.atomic_data = k['Provider'](redraw_coefficients(rng, copy.deepcopy(case)))
+            elif change == 'model.line':
+                cand = [i for i, s in enumerate(sp) if s['charge'] >= 1 and s['n'][0] > 0 and i != case['receiver']]
+                new['receiver'] = rng.choice(cand)
+                new['transition'] = [rng.randint(2, 9), 1]
+                rs = sp[new['receiver']]
+                self.line = Line(getattr(elements, rs['element']), rs['charge'] - 1, tuple(new['transition']))
+                self.model.line = self.line
+            else:
+                raise ValueError(change)
+        new['edge'] = 'after-' + change
+        return new
+
+
+def redraw_species(rng, s):
+    v0 = [rng.uniform(-1, 1) * rng.choice([0.0, 1e4, 1e5, 1e6, 3e6]) for _ in range(3)]
+    z = s['charge']
+    return dict(element=s['element'], charge=z,
+                n=rnd_affine(rng, 10 ** (rng.uniform(15, 20) if z else rng.uniform(14, 19))),
+                T=rnd_affine(rng, 10 ** rng.uniform(0, 4)), v=[rnd_affine(rng, c) for c in v0])
+
+
+def set_species(case, rng, entries):
+    """new description with the species list `entries` = [(species, index in the old list | None)]; the atomic data is
+    keyed by (element, charge), so coefficients follow their species"""
+    new = copy.deepcopy(case)
+    new['species'] = [copy.deepcopy(s) for s, _ in entries]
+
+    def p3_for(s, src, table, scale):
+        if src is not None:
+            return copy.deepcopy(table[src])
+        return rnd_p3(rng, null=(s['charge'] == 0), scale=scale)
+
+    if case['kind'] == 'cx':
+        new['pops'] = {m: [p3_for(s, src, tab, 0.3) for s, src in entries] for m, tab in case['pops'].items()}
+        old = case['species'][case['receiver']]
+        new['receiver'] = [i for i, (s, _) in enumerate(entries)
+                           if (s['element'], s['charge']) == (old['element'], old['charge'])][0]
     else:
-        line = Line(getattr(elements, case['beam_element']), 0, (3, 2))
-        model = BeamEmissionLine(line, beam, plasma, ad)
-        spectrum = Spectrum(400, 900, 1)
-        st, res = call(model.emission, bp, pp, bdir, odir, spectrum)
-        obs['status'] = st
-        obs['msg'] = res if st != 'ok' else ''
-        obs['total'] = float(spectrum.samples[0] * spectrum.delta_wavelength)
-        obs['bes_calls'] = {str(i): list(v.calls) for i, v in ad.bes.items()}
-    obs['queries'] = list(ad.queries)
-    obs['unknown_queries'] = ad.unknown
-    obs['att_calls'] = list(att.calls)
-    obs['zeff'] = call(plasma.z_effective, *case['plasma_point'])
-    obs['ion_density'] = call(plasma.ion_density, *case['plasma_point'])
-    return obs
+        new['bes'] = [p3_for(s, src, case['bes'], 1e-33) for s, src in entries]
+    return new
+
+
+def redraw_coefficients(rng, case):
+    """a different atomic data provider for the same scene"""
+    sp = case['species']
+    if case['kind'] == 'cx':
+        for mt in case['metas']:
+            u = [rng.random() for _ in range(6)]
+            s_ = 1e-33 * 10 ** rng.uniform(-1, 1)
+            mt['c'] = [s_ * u[0], s_ * u[1] / 1e5, s_ * u[2] / 1e3, s_ * u[3] / 1e19, s_ * u[4] / 3, s_ * u[5] / 3]
+        case['pops'] = {m: [rnd_p3(rng, null=(s['charge'] == 0), scale=rng.choice([0.05, 0.3, 2.0])) for s in sp]
+                        for m in case['pops']}
+    else:
+        case['bes'] = [rnd_p3(rng, null=(s['charge'] == 0), scale=1e-33 * 10 ** rng.uniform(-1, 1)) for s in sp]
+    return case
+
+
+def run_impl(case):
+    """the observation of one emission() call on a fresh scene"""
+    return Scene(case).observe(case)
 
 
 # --------------------------------------------------------------------------------------------------------------------
@@ -392,11 +720,12 @@ def model_line(case):
         # the model wants the ground state first, then the excited ones in provider order
         metas = sorted(case['metas'], key=lambda mt: 0 if mt['m'] == 1 else 1)
         toks = ['cx', head, fs(B), str(case['receiver']), str(len(sp)), _species_tokens(sp), str(len(metas))]
-        toks += [fs(mt['c']) for mt in metas]
+        d = case['beam_element']
+        toks += [fs(donor_c(mt['c'], d)) for mt in metas]
         for mt in metas[1:]:
-            toks += [_p3_tokens(p) for p in case['pops'][str(mt['m'])]]
+            toks += [_p3_tokens(donor_p3(p, d)) for p in case['pops'][str(mt['m'])]]
         return ' '.join(toks)
-    toks = ['bes', head, str(len(sp)), _species_tokens(sp)] + [_p3_tokens(p) for p in case['bes']]
+    toks = ['bes', head, str(len(sp)), _species_tokens(sp)] + [_p3_tokens(donor_p3(p, case['beam_element'])) for p in case['bes']]
     return ' '.join(toks)
 
 
@@ -429,7 +758,7 @@ def oracle(case):
     out['ion_density'] = math.fsum(s['n'] for s in (sp if ION_DENSITY_COUNTS_NEUTRALS else ions))
 
     def charged_sum(ps):
-        return math.fsum(s['Z'] * s['n'] * p3_value(p, e_int(s['v']), D / s['Z'], s['T'])
+        return math.fsum(s['Z'] * s['n'] * p3_value(donor_p3(p, case['beam_element']), e_int(s['v']), D / s['Z'], s['T'])
                          for s, p in zip(sp, ps) if s['Z'] >= 1)
 
     if case['kind'] == 'cx':
@@ -444,7 +773,7 @@ def oracle(case):
         if r['T'] == 0:
             out['undefined'] = 'receiver temperature zero (the code emits nothing there; outside the property)'
             return out
-        qs = {mt['m']: cx_value(mt['c'], *args) for mt in case['metas']}
+        qs = {mt['m']: cx_value(donor_c(mt['c'], case['beam_element']), *args) for mt in case['metas']}
         ks = {m: charged_sum(case['pops'][str(m)]) / snz for m in qs if m != 1}
         out['qs'], out['ks'] = qs, ks
         q = (qs[1] + math.fsum(ks[m] * qs[m] for m in ks)) / (1.0 + math.fsum(ks.values()))
@@ -468,7 +797,7 @@ def in_quantifier(case):
     return True
 
 
-def check_property(ctx, case, obs, desc):
+def check_property(ctx, case, obs, after=None, root=None):
     """direct oracle on the implementation's observations; calls ctx.fail on a violation of the property"""
     if not in_quantifier(case):
         ctx.count('outside-quantifier(neutral with non-null rate): K only')
@@ -479,10 +808,16 @@ def check_property(ctx, case, obs, desc):
     o = oracle(case)
     kind = case['kind']
     who = 'BeamCXLine.emission' if kind == 'cx' else 'BeamEmissionLine.emission'
-    rep = dict(case=case)
+    # the replay re-runs `case`; after a change that is the generated root case (its `reeval` entry reproduces the changes)
+    rep = dict(case=root, state=case, change=after) if after else dict(case=case)
 
     def fail(tag, text):
-        ctx.fail('C05:%s:%s' % (who, tag), '%s: %s' % (who, text), rep)
+        if after:
+            # a live model after a change of plasma / beam / provider: one signature per (model, change)
+            ctx.fail('C05:%s:after-%s:differs-from-documented-for-current-state' % (who, after),
+                     '%s after %s differs from the documented expression for the current state [%s] %s' % (who, after, tag, text), rep)
+        else:
+            ctx.fail('C05:%s:%s' % (who, tag), '%s: %s' % (who, text), rep)
 
     if 'undefined' in o:
         ctx.count('S-skipped: ' + o['undefined'][:30])
@@ -498,7 +833,9 @@ def check_property(ctx, case, obs, desc):
     want_order = [(s['element'], s['charge']) for s in case['species']]
     if obs['order'] != want_order:
         ctx.broke('correspondence', 'C05 composition order', dict(got=obs['order'], want=want_order))
-    if kind == 'cx':
+    if after and not obs['queries']:
+        ctx.count('S: no provider query in a re-evaluation (cache kept; the values decide whether it was stale)')
+    elif kind == 'cx':
         rs = case['species'][case['receiver']]
         wantq = ('beam_cx_pec', case['beam_element'], rs['element'], rs['charge'], tuple(case['transition']))
         if wantq not in obs['queries']:
@@ -553,7 +890,7 @@ def check_property(ctx, case, obs, desc):
         if not close(got, o['radiance'], REL):
             fail('radiance', 'radiance %r, (1/4pi) n_b n_r q = %r (n_b=%r n_r=%r q=%r, q_m=%r, k_m=%r)' % (got, o['radiance'], o['nb'], o['nr'], o['q'], o['qs'], o['ks']))
         # convexity: q between the smallest and the largest individual coefficient (values the mocks returned)
-        vals = [cx_value(mt['c'], *calls[0]) for mt, (m, calls) in zip(case['metas'], obs['cx_calls']) if calls]
+        vals = [cx_value(donor_c(mt['c'], case['beam_element']), *calls[0]) for mt, (m, calls) in zip(case['metas'], obs['cx_calls']) if calls]
         if vals and o['nb'] and o['nr']:
             qc = got / (RECIP_4_PI * o['nb'] * o['nr'])
             lo, hi = min(vals), max(vals)
@@ -714,9 +1051,17 @@ def gen_all(ctx, n):
     for i in range(n):
         kind = 'cx' if i % 5 < 3 else 'bes'
         edge = None
-        if rng.random() < 0.25:
+        u = rng.random()
+        if u < 0.2:
             edge = rng.choice(EDGES_CX if kind == 'cx' else EDGES_BES)
-        cases.append(gen_case(rng, kind, edge))
+        case = gen_case(rng, kind, edge)
+        if 0.2 <= u < 0.4:
+            # exact zeros: one ingredient exactly 0, the others non-zero
+            apply_zeros(rng, case, rng.choice(ZEROS_CX if kind == 'cx' else ZEROS_BES))
+        elif 0.4 <= u < 0.55:
+            # re-evaluation stream: evaluate, change the scene through public API, evaluate again
+            case['reeval'] = dict(seed=rng.randrange(1 << 30), attached=rng.random() < 0.5, n=rng.choice([1, 1, 2, 3]))
+        cases.append(case)
     # only-neutral and single-ion plasmas for the z_effective stream
     for i in range(max(4, n // 50)):
         c = gen_case(rng, 'bes', None)
@@ -726,6 +1071,28 @@ def gen_all(ctx, n):
         c['edge'] = 'sparse-plasma'
         cases.append(c)
     return cases
+
+
+def expand(ctx, case):
+    """the evaluations one generated case stands for: [(state description, observation, change | None)]"""
+    re = case.get('reeval')
+    if not re:
+        return [(case, run_impl(case), None)]
+    import random
+    rng = random.Random(re['seed'])
+    sc = Scene(case, re['attached'])
+    out = [(case, sc.observe(case), None)]
+    cur = case
+    for _ in range(re['n']):
+        ch = rng.choice(sc.changes(cur))
+        st, new = call(sc.apply, rng, cur, ch)
+        if st != 'ok':
+            ctx.broke('correspondence', 'C05 re-evaluation stream: change %s raised %s' % (ch, st), dict(msg=new, case=case))
+            break
+        new.pop('reeval', None)
+        cur = new
+        out.append((cur, sc.observe(cur), ch))
+    return out
 
 
 def corpus_cases():
@@ -742,18 +1109,18 @@ def corpus_cases():
 def process(ctx, cases):
     stats = dict(**{'bit-exact': 0, 'rounded': 0, 'maxrel': 0.0})
     lines = ['const ' + fs([E_CHARGE, AMU, RECIP_4_PI])]
-    observed = []
-    for case in cases:
-        obs = run_impl(case)
-        observed.append(obs)
-        lines.append(model_line(case))
-        lines.append(plasma_line(case))
-    if not cases:
+    items = []
+    for root in cases:
+        for state, obs, change in expand(ctx, root):
+            items.append((root, state, obs, change))
+            lines.append(model_line(state))
+            lines.append(plasma_line(state))
+    if not items:
         return stats
     outs = ctx.driver(lines)
     if outs[0] != 'ok':
         ctx.broke('correspondence', 'C05 driver const', outs[0])
-    for j, (case, obs) in enumerate(zip(cases, observed)):
+    for j, (root, case, obs, change) in enumerate(items):
         sp = case['species']
         key = (case['kind'], case['edge'], len(sp), sum(1 for s in sp if s['charge'] == 0),
                len(case.get('metas', [])), f2b(case['energy']))
@@ -768,10 +1135,12 @@ def process(ctx, cases):
             ctx.count('cx:metastables=%d' % len(case['metas']))
         if any(s['charge'] == 0 for s in sp):
             ctx.count('%s:with-neutral' % case['kind'])
+        if root.get('reeval'):
+            ctx.count('re-evaluation:%s' % ('attached' if root['reeval']['attached'] else 'detached'))
         compare(ctx, case, obs, outs[1 + 2 * j], stats)
         compare_plasma(ctx, case, obs, outs[2 + 2 * j])
         ctx.traces += 2
-        check_property(ctx, case, obs, None)
+        check_property(ctx, case, obs, after=change, root=root)
         check_plasma(ctx, case, obs)
     return stats
 
@@ -788,7 +1157,10 @@ def run(ctx, extra_cases=()):
                 'varying densities/temperatures/flows/B, stub beam density, 1-4 beam metastables returned in shuffled order, affine '
                 'non-negative mock coefficients of all their arguments, 3 beam isotopes, random beam energy/direction/points) + edge '
                 'streams (zero beam/receiver/plasma density, beam point outside the beam, zero receiver temperature, zero direction, '
-                'stationary plasma, neutral with non-null rate, identical coefficients, sparse plasmas); a case is distinct by '
+                'stationary plasma, neutral with non-null rate, identical coefficients, sparse plasmas) + exact-zero streams (one coefficient '
+                '/ relative population / density / temperature / B exactly 0 with the others non-zero, and all-but-one-zero) + '
+                're-evaluation stream (evaluate, change plasma / beam / provider through public API, model attached via beam.models or '
+                'stand-alone, evaluate again against the current state); a case is distinct by '
                 '(model, edge stream, #species, #neutrals, #metastables, beam energy bits); non-trivial = a line was emitted or an '
                 'edge stream was exercised')
     ctx.trusted += ['C sqrt is a parameter of the model under SqrtSpec (non-negative, squares back) - met by Real.sqrt (example in Props/C05.lean); the driver uses Float.sqrt',
